@@ -2,6 +2,7 @@ import L21.Driver.Sexp
 import L21.Model.GdsFloat
 import L21.Model.Dep
 import L21.Model.Geom
+import L21.Model.Aff
 /-
 Line-protocol operations: `<op> <sexpr>*` ↦ result line.
 -/
@@ -81,10 +82,56 @@ def opContains (args : List Sexp) : String :=
       | _, _ => "bad-op"
   | _ => "bad-op"
 
+def quarter? : Sexp → Option Nat
+  | .atom "none" => some 0
+  | s => (int? s).map (fun q => ((q % 4 + 4) % 4).toNat)
+
+def place? : Sexp → Option Aff.AffZ
+  | .list [x, y, r, q] => do pure (Aff.AffZ.ofInstance ⟨← int? x, ← int? y⟩ (← bool? r) (← quarter? q))
+  | _ => none
+
+def ptsToSexp (ps : List Geom.Pt) : Sexp := .list (ps.map (fun p => .list [ofInt p.x, ofInt p.y]))
+
+def opTfApply (args : List Sexp) : String :=
+  match args with
+  | [.list chain, .list qs] =>
+    match chain.mapM place?, pts? qs with
+    | some ts, some ps =>
+      let t := ts.foldl (fun acc i => acc.cascade i) Aff.AffZ.id
+      s!"ok {ptsToSexp (ps.map t.apply)}"
+    | _, _ => "bad-op"
+  | _ => "bad-op"
+
+def inst? : Sexp → Option Aff.Inst
+  | .list [.atom "inst", c, x, y, r, q] => do
+    pure ⟨← nat? c, ⟨← int? x, ← int? y⟩, ← bool? r, ← quarter? q⟩
+  | _ => none
+
+def cell? : Sexp → Option Aff.Cell
+  | .list [.atom "cell", .list shapes, .list insts] => do
+    let sh ← shapes.mapM (fun s => match s with | .list ps => pts? ps | _ => none)
+    let is ← insts.mapM inst?
+    pure ⟨sh, is⟩
+  | _ => none
+
+def opFlatten (args : List Sexp) : String :=
+  match args with
+  | [.list cs, top] =>
+    match cs.mapM cell?, nat? top with
+    | some cells, some t =>
+      match Aff.flatten cells (cells.length + 1) Aff.AffZ.id t with
+      | some shapes => s!"ok {Sexp.list (shapes.map ptsToSexp)}"
+      | none => "err"
+    | _, _ => "bad-op"
+  | _ => "bad-op"
+
 def dispatch (op : String) (args : List Sexp) : String :=
   match op with
   | "f.enc" => opFEnc args
   | "f.dec" => opFDec args
+  | "tf.apply" => opTfApply args
+  | "tf.general" => "unsupported"
+  | "raw.flatten" => opFlatten args
   | "geom.contains" => opContains args
   | "dep.generic" => opDep false args
   | "dep.raw" => opDep true args
